@@ -128,7 +128,10 @@ impl Shared {
     let seq = th.next_seq;
     th.next_seq += 1;
     th.heap.push(TimerEntry { deadline, seq, cell: Arc::downgrade(&cell) });
-    self.stats.timers_created.fetch_add(1, SeqCst);
+    if self.stats.timers_created.fetch_add(1, SeqCst) > 200_000 {
+      // library code is spinning without ever yielding to the executor
+      std::panic::panic_any(SimAbort::WouldHang);
+    }
     SimTimer { cell, shared: self.clone() }
   }
 
